@@ -46,15 +46,17 @@ impl Context {
     }
 
     /// Defines a new symbol in the current context its inner-most scope.
-    fn define(&mut self, name: &str) -> Symbol {
+    /// Returns None if there is no room for another symbol (their index is 16 bits wide)
+    fn define(&mut self, name: &str) -> Option<Symbol> {
+        let index = self.total_len().try_into().ok()?;
         let current_scope = self.symbols.last_mut().unwrap();
         current_scope.push(name.to_string());
         self.max_size += 1;
 
-        Symbol {
-            index: (self.total_len() - 1).try_into().unwrap(),
+        Some(Symbol {
+            index,
             scope: self.scope,
-        }
+        })
     }
 
     /// Resolves a symbol in this context along with its absolute index (relative to the context its top scope)
@@ -130,7 +132,8 @@ impl SymbolTable {
     }
 
     /// Define a symbol in the current context (and current scope within that context).
-    pub fn define(&mut self, name: &str) -> Symbol {
+    /// Returns None if there is no room for another symbol in the current context.
+    pub fn define(&mut self, name: &str) -> Option<Symbol> {
         self.current_context().define(name)
     }
 
